@@ -18,7 +18,10 @@ TECHNIQUE = ("stateless enumeration of scripts x kernel answers (deviation bound
 RULE = ("every script = [B writes 5 bytes first]? + <= 3 writes by A from {write 0/1/3/5/12 bytes, writeSequence(1,3), "
         "writeSequence(5,0,3)} x pacing {burst, one reactor iteration after each call, run to quiescence after each call} x closing "
         "action {loseConnection, loseWriteConnection (peer closes when it sees EOF), abortConnection, loseWriteConnection then "
-        "loseConnection, loseConnection then loseWriteConnection (the pacing gap between the two calls)} by A or B x protocols "
+        "loseConnection, loseConnection then loseWriteConnection (the pacing gap between the two calls)} by A or B, or B's protocol "
+        "acting from inside its first dataReceived {loseConnection, loseWriteConnection, 3-byte reply + loseConnection, 3-byte reply "
+        "with A then closing / half-closing} optionally with a 3-byte write by B after A's writes (pending when A's bytes arrive, so "
+        "one poll event carries IN|OUT) x protocols "
         "{plain, IHalfCloseableProtocol on both sides} x A's transport {tcp.Server, tcp.Client with a recording connector} (B is a "
         "tcp.Server) x reactor {select, poll, epoll, asyncio}; kernel pipe of 4 bytes per direction, SEND_LIMIT=4, bufferSize=3; "
         "kernel answers: at every send() all that fits (default) or any smaller count >= 1; at every readiness report with two "
@@ -27,13 +30,15 @@ RULE = ("every script = [B writes 5 bytes first]? + <= 3 writes by A from {write
         "quiescence and the byte-stream / connectionLost oracle is evaluated. non-trivial = distinct (script, answers) in which a "
         "send was short or two descriptors were ready in one report; states = distinct (script, kernel state, transport buffers, "
         "protocol logs) snapshots after a reactor iteration, transitions = reactor iterations executed on the real code")
-BOUNDS = {"quick": "scripts with <= 2 writes: <= 2 deviations (plain/server-server and half-closeable/client-server, no echo), <= 1 deviation "
+BOUNDS = {"quick": "scripts with <= 2 writes: <= 2 deviations (plain/server-server and half-closeable/client-server, no echo, burst and step pacing), <= 1 deviation "
                    "(all four protocol/transport kinds, with and without echo); scripts with exactly 3 writes (plain/server-server and "
                    "half-closeable/client-server, no echo, burst and drain pacing): <= 1 deviation; two-step closes: <= 2 writes, all kinds, with and without echo at "
-                   "<= 1 deviation, by A without echo (those two kinds) at <= 2; exactly 3 writes, by A, at <= 1 deviation",
+                   "<= 1 deviation, by A without echo (those two kinds) at <= 2; exactly 3 writes, by A, at <= 1 deviation; "
+                   "closes from inside dataReceived: <= 2 writes, all kinds, with and without the late 3-byte write by B, <= 1 deviation",
           "thorough": "all scripts with <= 3 writes, four protocol/transport kinds, with and without echo: <= 2 deviations; scripts with <= 2 "
                       "writes (plain/server-server and half-closeable/client-server, no echo): <= 3 deviations; two-step closes: <= 2 writes at "
-                      "<= 2 deviations, exactly 3 writes at <= 1 deviation (all kinds, with and without echo)"}
+                      "<= 2 deviations, exactly 3 writes at <= 1 deviation (all kinds, with and without echo); closes from inside "
+                      "dataReceived: <= 2 writes at <= 2 deviations, exactly 3 writes at <= 1"}
 ASSUMPTIONS = [
     "trusted base = SimKernel (checks/_c15_kernel.py): Linux tcp_poll readiness masks, one 4-byte pipe per direction standing "
     "for send queue + receive queue, FIN/RST semantics (close with unread data or SO_LINGER 0 resets the peer; data sent to a "
@@ -48,7 +53,7 @@ ASSUMPTIONS = [
     "to connectionLost after abortConnection is not constrained by the statement",
     "a half-closeable protocol calls loseConnection() from readConnectionLost, as IHalfCloseableProtocol requires",
 ]
-MIN = {"quick": {"evaluations": 900000, "nontrivial": 860000, "outcomes": 9, "states": 1650000},
+MIN = {"quick": {"evaluations": 1000000, "nontrivial": 950000, "outcomes": 10, "states": 2000000},
        "thorough": {"evaluations": 14000000, "nontrivial": 14000000, "outcomes": 8, "states": 7500000}}
 LEVEL_TEXT = ("Every script in the stated alphabet on each of the four reactors' real dispatch code and the real tcp.Connection, "
               "with every single (thorough: pair of) departure(s) of the model kernel from its default answers; relative to the "
@@ -67,6 +72,9 @@ CLOSES = [(s, k) for s in "AB" for k in ("lose", "losew", "abort")]
 # two-step closes by one side; the pacing gap (none / one iteration / quiescence) separates the two calls, the second
 # call is made only if that side's protocol has not been told connectionLost yet (an application would not touch a dead transport)
 CLOSES2 = [(s, k) for s in "AB" for k in ("losew+lose", "lose+losew")]
+# B's protocol acts from inside its first dataReceived: rx-X = it calls X there and the script itself closes nothing;
+# X~reply = it writes a 3-byte reply there and the script's closer performs X afterwards
+CLOSES3 = [("B", "rx-lose"), ("B", "rx-losew"), ("B", "rx-reply-lose"), ("A", "lose~reply"), ("A", "losew~reply")]
 
 
 # ---------------------------------------------------------------------------------------------
@@ -159,13 +167,26 @@ def _classes():
             self.rcl = 0
             self.wcl = 0
             self.closed_self = False     # this side asked for an orderly close / half-close itself
+            self.react = None            # what to do from inside the first dataReceived
 
         def dataReceived(self, data):
             self.env.nevents += 1
             if self.lost:
                 self.env.bad.append(("dataReceived-after-connectionLost", self.name,
                                      "%d bytes delivered to %s after its connectionLost" % (len(data), self.name)))
+            first = not self.got
             self.got += data
+            if first and self.react and not self.lost:
+                r, self.react = self.react, None
+                self.env.k.flags.add("acted-inside-dataReceived")
+                if r.startswith("reply"):
+                    self.env.write(self.name, ("w", 3))
+                if r.endswith("losew"):
+                    self.closed_self = True
+                    self.transport.loseWriteConnection()
+                elif r.endswith("lose"):
+                    self.closed_self = True
+                    self.transport.loseConnection()
 
         def connectionLost(self, reason):
             self.env.nevents += 1
@@ -254,6 +275,10 @@ class Env:
 
     def write(self, side, op):
         t = self.t[side]
+        if self.p[side].lost or self.p[side].closed_self:
+            # the statement is about writes followed by a close; an application does not write after it closed
+            self.k.flags.add("scripted-write-skipped-after-close")
+            return
         if op[0] == "w":
             d = self.fresh(op[1])
             self.wrote[side] += d
@@ -327,13 +352,22 @@ def run_case(ch, case, base=0):
             if not env.settle():
                 env.quiescent = False
 
-    if echo:
+    if kind.startswith("rx-"):
+        env.p["B"].react = kind[3:]
+    elif "~" in kind:
+        kind = kind.split("~")[0]
+        env.p["B"].react = "reply"
+    if echo == 1:
         env.write("B", ("w", 5))
         gap()
     for op in ops:
         env.write("A", op)
         gap()
-    if "+" in kind:
+    if echo == 2:
+        env.write("B", ("w", 3))       # late greeting: written when A's bytes may already be queued for B
+    if kind.startswith("rx-"):
+        pass                           # B closes from inside dataReceived
+    elif "+" in kind:
         first, second = kind.split("+")
         env.close(closer, first)
         gap()
@@ -402,7 +436,7 @@ def judge(env):
         if hc and not rst and kind != "abort":
             if s == peer and p.rcl != 1:
                 out.append(("readConnectionLost-missing", role[s], "%s (half-closeable) saw the peer's orderly close but got %d readConnectionLost calls" % (s, p.rcl)))
-            if s == closer and kind == "losew":
+            if s == closer and kind in ("losew", "rx-losew", "losew~reply"):
                 if p.wcl != 1:
                     out.append(("writeConnectionLost-missing", role[s], "%s half-closed but got %d writeConnectionLost calls" % (s, p.wcl)))
                 if p.rcl != 1:
@@ -448,6 +482,8 @@ def _scripts(maxw, only_len, pacings, hcs, echos, bound, closes=CLOSES):
                 continue
             for hc in hcs:
                 for closer, kind in closes:
+                    if kind.startswith("rx-") and not any(sum(o[1]) if o[0] == "ws" else o[1] for o in ops):
+                        continue      # B never receives anything, so nobody would ever close
                     for echo in echos:
                         out.append((bound, hc, pacing, ops, closer, kind, echo))
     return out
@@ -457,17 +493,21 @@ def _scripts(maxw, only_len, pacings, hcs, echos, bound, closes=CLOSES):
 def scripts(tier):
     """[(bound, kinds, pacing, ops, closer, kind, echo)] without the reactor."""
     if tier == "quick":
-        return (_scripts(2, None, PACING, (0, 3), (0,), 2)
+        return (_scripts(2, None, ("burst", "step"), (0, 3), (0,), 2)
+                + _scripts(2, None, ("drain",), (0, 3), (0,), 1)
                 + _scripts(2, None, PACING, (1, 2), (0,), 1)
                 + _scripts(2, None, PACING, (0, 1, 2, 3), (1,), 1)
                 + _scripts(3, 3, ("burst", "drain"), (0, 3), (0,), 1)
                 + _scripts(2, None, PACING, (0, 1, 2, 3), (0, 1), 1, CLOSES2)
-                + _scripts(2, None, PACING, (0, 3), (0,), 2, CLOSES2[:2])
-                + _scripts(3, 3, ("burst", "drain"), (0, 3), (0,), 1, CLOSES2[:2]))
+                + _scripts(2, None, ("burst", "step"), (0, 3), (0,), 2, CLOSES2[:2])
+                + _scripts(3, 3, ("burst", "drain"), (0, 3), (0,), 1, CLOSES2[:2])
+                + _scripts(2, None, PACING, (0, 1, 2, 3), (0, 2), 1, CLOSES3))
     return (_scripts(3, None, PACING, (0, 1, 2, 3), (0, 1), 2)
             + _scripts(2, None, PACING, (0, 3), (0,), 3)
             + _scripts(2, None, PACING, (0, 1, 2, 3), (0, 1), 2, CLOSES2)
-            + _scripts(3, 3, PACING, (0, 1, 2, 3), (0, 1), 1, CLOSES2))
+            + _scripts(3, 3, PACING, (0, 1, 2, 3), (0, 1), 1, CLOSES2)
+            + _scripts(2, None, PACING, (0, 1, 2, 3), (0, 1, 2), 2, CLOSES3)
+            + _scripts(3, 3, PACING, (0, 1, 2, 3), (0, 2), 1, CLOSES3))
 
 
 NSLICES = {"quick": 12, "thorough": 40}
